@@ -120,6 +120,10 @@ def gen_pattern(rng, vals):
     if kind == "wildas":
         n = rng.choice([1, 2, 3])
         toks = [num_variants(rng, rng.choice(vals["la"])) for _ in range(n)]
+        if rng.random() < 0.35:
+            # a listed value above 65535: no standard community has it, a 32-bit local-admin may (its low 16 bits are a
+            # value the communities of the case do carry)
+            toks[rng.randrange(n)] = str(rng.choice(vals["la"]) + 65536 * rng.choice([1, 1, 3]))
         if rng.random() < 0.15:
             toks.append(toks[0])
         rhs = lit(toks[0]) if (n == 1 and rng.random() < 0.5) else ("grp", ("alt", [lit(t) for t in toks]))
@@ -266,9 +270,10 @@ def gen_ext_case(rng):
         # communities of all three kinds carrying exactly those values
         L, M = rng.choice(vals["la"]) & 0xffff, rng.choice(vals["la"]) & 0xffff
         sub = rng.choice(["rt", "soo"])
-        rhs = lit(str(L)) if rng.random() < 0.5 else ("grp", ("alt", [lit(str(L)), lit(str(M))]))
+        big = rng.choice([L + 65536, M + 65536, 65536, 70000])      # a listed value no 16-bit local-admin can have
+        rhs = rng.choice([lit(str(L)), ("grp", ("alt", [lit(str(L)), lit(str(M))])), ("grp", ("alt", [lit(str(big)), lit(str(M))])), lit(str(big))])
         pats = [(sub, ("p", True, True, cat(rng.choice(WILD_AS_NEAR), lit(":"), rhs)))]
-        ecs = [(k, EC_ST[sub], {0: 65001, 1: rng.choice([65536 + 7, 100]), 2: 167772161}[k], rng.choice([L, M, L, (L + 1) & 0xffff]), 1) for k in rng.sample([0, 1, 2, 1, 2], rng.choice([1, 2, 3]))]
+        ecs = [(k, EC_ST[sub], {0: 65001, 1: rng.choice([65536 + 7, 100]), 2: 167772161}[k], rng.choice([L, M, L, (L + 1) & 0xffff] + ([big, big & 0xffff] if k == 0 else [big & 0xffff])), 1) for k in rng.sample([0, 1, 2, 1, 2], rng.choice([1, 2, 3]))]
     opt = rng.choice([0, 0, 1, 2])
     edits = []
     final = list(pats)
